@@ -26,6 +26,20 @@ Theorem C10_partial_contained : forall c k s p,
 Proof. exact contained. Qed.
 Print Assumptions C10_partial_contained.
 
+(* The same two statements when generation is interrupted at an arbitrary point (after any number n of
+   the planned file operations, not only on entry of a stage). *)
+Theorem C10_partial_noforce_anywhere : forall c k s n,
+  wf_tmp c = true -> guard_F10b c = true ->
+  restrict_root c (exec (exec s (firstn n (plan_main c true k))) [(Final, Rmtree (tmp c))]) = restrict_root c s.
+Proof. exact noforce_untouched_anywhere. Qed.
+Print Assumptions C10_partial_noforce_anywhere.
+
+Theorem C10_partial_contained_anywhere : forall c k s n p,
+  wf_pkg c = true -> wf_tmp c = true -> guard_F10b c = true ->
+  In p (touched s (firstn n (plan c k s))) -> sunder (root c) p = true -> allowed c p = true.
+Proof. exact contained_anywhere. Qed.
+Print Assumptions C10_partial_contained_anywhere.
+
 (* The call returns iff no stage failed and (in the diff path) nothing differs; it fails with the
    injected stage iff that stage is reached. *)
 Theorem C10_result : forall c k s,
